@@ -189,11 +189,14 @@ def run (ctx):
   if sp is None: raise AnalysisError("packet_base.set_payload vanished")
   ctx.analysed(sp); gsp = q.cfg_of(sp); pp_ = sp.params[1]
   is_pb = lambda e: isinstance(e, ast.Call) and call_name(e) == 'isinstance' and len(e.args) == 2 and 'packet_base' in norm(e.args[1])
+  # the payload is a packet object, so it is not bytes: `type(p) is bytes`, `type(p) == bytes`, `isinstance(p, bytes)` are all false
+  is_by = lambda e: (isinstance(e, ast.Call) and call_name(e) == 'isinstance' and len(e.args) == 2 and norm(e.args[1]) in ('bytes', '(bytes,)', '(bytes, bytearray)')) or \
+                    (isinstance(e, ast.Compare) and len(e.ops) == 1 and isinstance(e.ops[0], (ast.Is, ast.Eq)) and norm(e.comparators[0]) == 'bytes' and norm(e.left).startswith('type('))
   links = [q.enclosing_stmt_node(gsp, st) for t, v, st, k in q.stores_in(sp.node) if isinstance(t, ast.Attribute) and t.attr == 'prev' and norm(t.value) == pp_ and v is not None and norm(v) == 'self']
   ctx.floor('set_payload: back-link site', len(links), 1)
   # every path on which the payload is a packet object passes the back-link, whatever it was linked to before
   for prev_state in (None, '<old carrier>'):
-    env = q.Env({pp_ + '.prev': prev_state}, [(is_pb, True)])
+    env = q.Env({pp_ + '.prev': prev_state}, [(is_pb, True), (is_by, False)])
     holds, r_ = q.must_pass_under(repo, pbm, gsp, env, links, pbc_, cp=True)
     ctx.ob('R-EFFECT', sp, "attaching a packet payload links it back to its new carrier (payload.prev %s before)" % ('unset' if prev_state is None else 'set'), holds,
            "payload.prev = self on every such path" if holds else
@@ -231,6 +234,7 @@ def run (ctx):
   _udp_zero(ctx, repo)
   _hdr_copies(ctx, repo)
   _lldp_tlv_header(ctx, repo)
+  _llc_control(ctx, repo)
   _unparsed_payload(ctx, repo)
   _option_packers(ctx, repo)
   from . import c15b
@@ -372,39 +376,42 @@ def _checksum (ctx, repo):
   ctx.analysed(f)
   for cf in btypes.conflicts(f.node, assume={'data': btypes.B}):
     ctx.bad('R-BYTES', f, "`%s`" % cf.text[:60], "%s of %s and %s: TypeError for every odd-length input" % (cf.kind, cf.left, cf.right), (mod, cf.node), 'D5')
-  # odd byte: data[-1:] + b'\0' style (bytes + bytes)
-  odd = [n for n in ast.walk(f.node) if isinstance(n, ast.BinOp) and isinstance(n.op, ast.Add) and any(isinstance(x, ast.Subscript) and norm(x.value) == f.params[0] for x in (n.left, n.right))]
-  g = q.cfg_of(f)
-  guarded = False
-  for n in odd:
-    cn = q.enclosing_stmt_node(g, n)
-    if cn is not None and any('% 2' in x for x in q.fact_strs(g, cn)): guarded = True
-    sub = n.left if isinstance(n.left, ast.Subscript) else n.right
-    pad = n.right if sub is n.left else n.left
-    good = isinstance(sub.slice, ast.Slice) and isinstance(pad, ast.Constant) and isinstance(pad.value, bytes)
-    ctx.ob('R-BYTES', f, "the odd trailing byte is padded as bytes", good, norm(n) if good else "`%s` does not build a 2-byte bytes object from the last byte" % norm(n), (mod, n), 'D5')
-  ctx.ob('R-DOM', f, "an odd trailing byte is included in the sum", bool(odd) and guarded, "handled under len % 2 != 0" if odd and guarded else "odd-length data loses its last byte", f, 'D5')
-  # carry folding: (x >> 16) + (x & 0xffff) followed by a second fold (x += x >> 16 or the same expression again), or a loop
-  folds = 0; loops = 0
-  var = None
-  for st in walk_no_nested(f.node):
-    if isinstance(st, ast.Assign) and isinstance(st.value, ast.BinOp) and isinstance(st.value.op, ast.Add):
-      parts = [st.value.left, st.value.right]
-      sh = [p for p in parts if isinstance(p, ast.BinOp) and isinstance(p.op, ast.RShift) and q.try_int(p.right) == 16]
-      ms = [p for p in parts if isinstance(p, ast.BinOp) and isinstance(p.op, ast.BitAnd) and q.try_int(p.right) == 0xffff]
-      if sh and ms: folds += 1
-    if isinstance(st, ast.AugAssign) and isinstance(st.op, ast.Add) and isinstance(st.value, ast.BinOp) and isinstance(st.value.op, ast.RShift) and q.try_int(st.value.right) == 16: folds += 1
-    if isinstance(st, ast.While) and '>> 16' in norm(st.test): loops += 1
-  good = folds >= 2 or loops >= 1
-  ctx.ob('R-AGREE', f, "the end-around carry is folded until it fits 16 bits (two folds or a loop)", good,
-         "%d fold step(s), %d fold loop(s)" % (folds, loops) if good else
-         "only %d carry-fold step: when the first fold itself overflows 16 bits the extra carry is dropped and the checksum differs from RFC 1071" % folds, f, 'D5')
-  checksum_samples(ctx, repo)
-  rv = q.returns_of(f.node)
-  good = bool(rv) and '~' in norm(rv[-1].value) and '0xffff' in norm(rv[-1].value).lower() or (rv and '65535' in norm(rv[-1].value))
-  ctx.ob('R-AGREE', f, "the result is the 16-bit one's complement", bool(good), norm(rv[-1].value) if rv else "?", f, 'D5')
-  skip = [n for n in g.nodes if n.kind == 'continue' and any('skip_word' in x for x in q.fact_strs(g, n))]
-  ctx.ob('R-AGREE', f, "exactly the skip word is left out of the sum", bool(skip), "continue under i == skip_word", f, 'D5')
+  # the samples decide the arithmetic (odd trailing byte, carry folding, complement, skipped word) by value; the structural rules
+  # below are only a fallback for a checksum() the analyser's interpreter cannot run
+  decided = checksum_samples(ctx, repo)
+  if decided is None:
+    # odd byte: data[-1:] + b'\0' style (bytes + bytes)
+    odd = [n for n in ast.walk(f.node) if isinstance(n, ast.BinOp) and isinstance(n.op, ast.Add) and any(isinstance(x, ast.Subscript) and norm(x.value) == f.params[0] for x in (n.left, n.right))]
+    g = q.cfg_of(f)
+    guarded = False
+    for n in odd:
+      cn = q.enclosing_stmt_node(g, n)
+      if cn is not None and any('% 2' in x for x in q.fact_strs(g, cn)): guarded = True
+      sub = n.left if isinstance(n.left, ast.Subscript) else n.right
+      pad = n.right if sub is n.left else n.left
+      good = isinstance(sub.slice, ast.Slice) and isinstance(pad, ast.Constant) and isinstance(pad.value, bytes)
+      ctx.ob('R-BYTES', f, "the odd trailing byte is padded as bytes", good, norm(n) if good else "`%s` does not build a 2-byte bytes object from the last byte" % norm(n), (mod, n), 'D5')
+    ctx.ob('R-DOM', f, "an odd trailing byte is included in the sum", bool(odd) and guarded, "handled under len % 2 != 0" if odd and guarded else "odd-length data loses its last byte", f, 'D5')
+    # carry folding: (x >> 16) + (x & 0xffff) followed by a second fold (x += x >> 16 or the same expression again), or a loop
+    folds = 0; loops = 0
+    var = None
+    for st in walk_no_nested(f.node):
+      if isinstance(st, ast.Assign) and isinstance(st.value, ast.BinOp) and isinstance(st.value.op, ast.Add):
+        parts = [st.value.left, st.value.right]
+        sh = [p for p in parts if isinstance(p, ast.BinOp) and isinstance(p.op, ast.RShift) and q.try_int(p.right) == 16]
+        ms = [p for p in parts if isinstance(p, ast.BinOp) and isinstance(p.op, ast.BitAnd) and q.try_int(p.right) == 0xffff]
+        if sh and ms: folds += 1
+      if isinstance(st, ast.AugAssign) and isinstance(st.op, ast.Add) and isinstance(st.value, ast.BinOp) and isinstance(st.value.op, ast.RShift) and q.try_int(st.value.right) == 16: folds += 1
+      if isinstance(st, ast.While) and '>> 16' in norm(st.test): loops += 1
+    good = folds >= 2 or loops >= 1
+    ctx.ob('R-AGREE', f, "the end-around carry is folded until it fits 16 bits (two folds or a loop)", good,
+           "%d fold step(s), %d fold loop(s)" % (folds, loops) if good else
+           "only %d carry-fold step: when the first fold itself overflows 16 bits the extra carry is dropped and the checksum differs from RFC 1071" % folds, f, 'D5')
+    rv = q.returns_of(f.node)
+    good = bool(rv) and '~' in norm(rv[-1].value) and '0xffff' in norm(rv[-1].value).lower() or (rv and '65535' in norm(rv[-1].value))
+    ctx.ob('R-AGREE', f, "the result is the 16-bit one's complement", bool(good), norm(rv[-1].value) if rv else "?", f, 'D5')
+    skip = [n for n in g.nodes if n.kind == 'continue' and any('skip_word' in x for x in q.fact_strs(g, n))]
+    ctx.ob('R-AGREE', f, "exactly the skip word is left out of the sum", bool(skip), "continue under i == skip_word", f, 'D5')
 
 def checksum_samples (ctx, repo, clause='D5'):
   """checksum() evaluated by the analyser's own interpreter on sample inputs (odd / even length, sums whose first fold carries
@@ -452,10 +459,12 @@ def checksum_samples (ctx, repo, clause='D5'):
     if got != ref(data, start, skip): wrong.append((data, start, skip, got, ref(data, start, skip)))
   if unknown:
     ctx.undecided('R-AGREE', f, "checksum() equals the RFC 1071 sum on the sample inputs", "not evaluable for %d of %d samples" % (unknown, len(S)), f, clause)
+    return None
   else:
     ctx.ob('R-AGREE', f, "checksum() equals the RFC 1071 sum on the sample inputs", not wrong, "%d samples (carry after the first fold, odd length, skipped word, non-zero start)" % len(S) if not wrong else
            "checksum(%r, %s, %s) evaluates to 0x%04x, RFC 1071 gives 0x%04x: every header whose 16-bit sum behaves like this sample is emitted with a checksum receivers reject"
            % (wrong[0][0], wrong[0][1], wrong[0][2], wrong[0][3], wrong[0][4]), f, clause)
+    return not wrong
 
 def _skipwords (ctx, repo):
   """checksum(ph + payload, 0, K): K == (len(pseudo header) + offset of the checksum field) / 2"""
@@ -537,18 +546,61 @@ def _unparsed_payload (ctx, repo):
     f = cls.methods.get('parse') if cls is not None else None
     if f is None: continue
     g = q.cfg_of(f)
-    ctor = []; fallback = []
+    ctor = []; fallback = []; other_fb = []
     for t, v, st, k in q.stores_in(f.node, nested=False):
       if not (isinstance(t, ast.Attribute) and t.attr == 'next' and norm(t.value) == 'self') or v is None: continue
       n = q.enclosing_stmt_node(g, st)
       if isinstance(v, ast.Call) and (kwarg(v, 'raw') is not None or kwarg(v, 'prev') is not None): ctor.append(n)
-      elif isinstance(v, ast.Subscript) and isinstance(v.slice, ast.Slice) and n is not None and any('.parsed:falsy' in x and 'self.next' in x for x in q.fact_strs(g, n)): fallback.append(n)
+      elif n is not None and any('.parsed:falsy' in x and 'self.next' in x for x in q.fact_strs(g, n)):
+        v2 = v
+        if isinstance(v2, ast.Name):
+          d_ = q.single_def(f.node, v2.id)
+          if d_ is not None: v2 = d_
+        if isinstance(v2, ast.Subscript) and isinstance(v2.slice, ast.Slice): fallback.append(n)
+        else: other_fb.append(n)
     if not ctor:
       ctx.undecided('R-EFFECT', f, "an unparsed next-layer object is replaced by its bytes", "no next-layer constructor found in parse()", f, 'D2'); continue
     good = bool(fallback) and all(any(fb in g.reachable(c_, exc=False) for fb in fallback) for c_ in ctor if c_ is not None)
+    if not good and other_fb: good = None      # something is stored when the next layer did not parse, but not recognisably the bytes
     ctx.ob('R-EFFECT', f, "an unparsed next-layer object is replaced by its bytes", good, "self.next = raw[...] under `not self.next.parsed` after every constructor" if good else
            "%s.parse keeps a next-layer object that did not parse: packet_base.pack() re-emits such an object from its `raw` copy, which icmp.parse (for one) never stores - an IPv4 datagram with a truncated ICMP header is re-serialised with an invented 4-byte header, longer than it was received"
            % cname, f, 'D2')
+
+def _llc_control (ctx, repo):
+  """LLC: the control field is one octet (U format) or two (I / S format).  parse() decides from the received octet, hdr()
+  when re-emitting; both evaluated on one frame per format-bit combination: hdr() must emit as many control octets as parse()
+  consumed, or everything behind the control field shifts."""
+  mod = repo.mod(PK + '.llc'); cls = mod.classes.get('llc') if mod is not None else None
+  pf = cls.methods.get('parse') if cls is not None else None; hf = cls.methods.get('hdr') if cls is not None else None
+  if pf is None or hf is None: return
+  ctx.analysed(pf); ctx.analysed(hf)
+  gp = q.cfg_of(pf); gh = q.cfg_of(hf)
+  wrong = []; unknown = 0; n = 0
+  for c0 in (0x03, 0x13, 0x00, 0x02, 0x01, 0x05, 0x09, 0xf3, 0xaf, 0x7f):
+    raw = bytes([0x42, 0x42, c0, 0x00, 1, 2, 3, 4, 5, 6])
+    msgm = lambda e: isinstance(e, ast.Call) and call_name(e) in ('msg', 'warn', 'err')
+    ends = q.paths_under(repo, mod, gp, q.Env({pf.params[1]: raw, 'self.MIN_LEN': 3, 'self.oui': None, 'isinstance(raw, bytes)': True}, [(msgm, None)]), gp.entry, [gp.exit], cls, limit=40)
+    states = set()
+    for p_, e_ in ends:
+      L = e_.exact.get('self.length'); C = e_.exact.get('self.control')
+      states.add((L, C) if isinstance(L, int) and isinstance(C, int) else '?')
+    if len(states) != 1 or '?' in states: unknown += 1; continue
+    L, C = list(states)[0]
+    outs = set()
+    for p_, e_ in q.paths_under(repo, mod, gh, q.Env({'self.dsap': 0x42, 'self.ssap': 0x42, 'self.control': C, 'self.length': L, 'self.has_snap': False, 'self.oui': None}), gh.entry, [x for x in gh.nodes if x.kind == 'return'], cls, limit=40):
+      try: v_ = q.eval_env2(repo, mod, p_[-1].ast.value, e_, cls)
+      except Exception: v_ = '?'
+      outs.add(v_ if isinstance(v_, bytes) else '?')
+    if len(outs) != 1 or '?' in outs: unknown += 1; continue
+    n += 1
+    out = list(outs)[0]
+    if out != raw[:L]: wrong.append((c0, L, out))
+  if unknown and not wrong:
+    ctx.undecided('R-AGREE', cls.qual, "LLC control field: hdr() re-emits what parse() consumed", "not evaluable for %d sample frame(s)" % unknown, hf, 'D1')
+  else:
+    ctx.ob('R-AGREE', cls.qual, "LLC control field: hdr() re-emits what parse() consumed", not wrong, "%d control octets (U, I and S formats)" % n if not wrong else
+           "a frame whose first control octet is 0x%02x: parse() consumes a %d-octet header, hdr() emits %s (%d octets) - the payload (and a SNAP OUI / ethertype) behind the control field shifts, the frame "
+           "grows or shrinks on every parse-then-serialise pass" % (wrong[0][0], wrong[0][1], wrong[0][2].hex(), len(wrong[0][2])), hf, 'D1')
 
 def _lldp_tlv_header (ctx, repo):
   """LLDP TLV header: 7 bits of type and 9 bits of length.  The two readers (lldp.next_tlv, simple_tlv.parse) evaluated on a
